@@ -676,7 +676,7 @@ fn build_default_for_struct(
     let value = hattrs
         .default
         .as_ref()
-        .and_then(|a| a.value(&parse_quote!(Self)));
+        .and_then(|a| a.value_as_tail(&parse_quote!(Self)));
     let value = if let Some(value) = value {
         value
     } else {
@@ -708,7 +708,11 @@ fn build_default_for_enum(
 
     let mut wcb = WhereClauseBuilder::new(&item.generics);
     let mut use_bounds = e.push_bounds_to_with(hattrs, kind, &mut wcb);
-    let value = if let Some(value) = hattrs.default_value(&parse_quote!(Self)) {
+    let value = if let Some(value) = hattrs
+        .default
+        .as_ref()
+        .and_then(|a| a.value_as_tail(&parse_quote!(Self)))
+    {
         value
     } else {
         let vs: Vec<_> = variants
@@ -1477,6 +1481,51 @@ impl HelperAttributeForDefault {
             }))
         } else {
             Ok(None)
+        }
+    }
+    /// The value as the tail expression of a function body.
+    ///
+    /// An expression that starts with a block-like expression and continues (`{ 1 } + 1`, `if c { 1 } else { 2 } as u8`)
+    /// would be read as a statement followed by garbage there, so it is parenthesized.
+    fn value_as_tail(&self, ty: &Type) -> Option<TokenStream> {
+        fn is_block_like(e: &Expr) -> bool {
+            matches!(
+                e,
+                Expr::Block(_)
+                    | Expr::If(_)
+                    | Expr::Match(_)
+                    | Expr::Unsafe(_)
+                    | Expr::Loop(_)
+                    | Expr::While(_)
+                    | Expr::ForLoop(_)
+                    | Expr::Const(_)
+                    | Expr::TryBlock(_)
+            )
+        }
+        fn starts_with_block_like(e: &Expr) -> bool {
+            let mut cur = e;
+            let mut depth = 0;
+            loop {
+                cur = match cur {
+                    Expr::Binary(e) => &e.left,
+                    Expr::Cast(e) => &e.expr,
+                    Expr::MethodCall(e) => &e.receiver,
+                    Expr::Field(e) => &e.base,
+                    Expr::Index(e) => &e.expr,
+                    Expr::Call(e) => &e.func,
+                    Expr::Try(e) => &e.expr,
+                    Expr::Await(e) => &e.base,
+                    Expr::Assign(e) => &e.left,
+                    Expr::Range(syn::ExprRange { start: Some(e), .. }) => e,
+                    _ => return depth > 0 && is_block_like(cur),
+                };
+                depth += 1;
+            }
+        }
+        let value = self.value(ty)?;
+        match &self.value {
+            Some(e) if starts_with_block_like(e) => Some(quote!((#value))),
+            _ => Some(value),
         }
     }
     fn value(&self, ty: &Type) -> Option<TokenStream> {
